@@ -219,6 +219,13 @@ def gen_spec(rng, uid, base, force=None):
             s["on_setattr"] = rng.choice(["user", "list_user2", "list_uc", "frozen", "list_empty", "list_vf"])
         else:
             s["fields"][0]["on_setattr"] = rng.choice([t for t in OS_TAGS if t != "NO_OP"])
+    elif hooks == "cls_some":
+        # hooks at class level only: the fields (and so the subclasses' inherited fields) carry none
+        if not s["fields"]:
+            s["fields"] = [gen_field(rng, rng.choice(NAMES), uid, 0.0)]
+        s["on_setattr"] = rng.choice(["user", "list_user2", "list_uc", "frozen", "list_empty", "list_vf", "list_cu"])
+        for f in s["fields"]:
+            f["on_setattr"] = None
     elif hooks == "convert_only":
         # class-level setters.convert where every converting field also validates
         s["on_setattr"] = "convert"
@@ -250,9 +257,13 @@ def gen_spec(rng, uid, base, force=None):
 # scenario templates: one dict of overrides per level, root first
 TEMPLATES = [
     # hooked root, unhooked middle, unhooked leaf whose body writes an undetected __setattr__
-    [{"hooks": "some", "frozen": False, "user_setattr": False}, {"hooks": "none", "frozen": False, "user_setattr": False},
+    [{"hooks": "cls_some", "frozen": False, "user_setattr": False},
+     {"hooks": "none", "frozen": False, "user_setattr": False, "slots": False},
      {"hooks": "none", "frozen": False, "user_setattr": True, "api": "attrs", "auto_detect": None, "slots": False}],
-    [{"hooks": "some", "frozen": False, "user_setattr": False}, {"hooks": "none", "frozen": False, "user_setattr": False},
+    [{"hooks": "cls_some", "frozen": False, "user_setattr": False},
+     {"hooks": "none", "frozen": False, "user_setattr": False, "slots": True},
+     {"hooks": "none", "frozen": False, "user_setattr": True, "api": "attrs", "auto_detect": None, "slots": False}],
+    [{"hooks": "cls_some", "frozen": False, "user_setattr": False}, {"hooks": "none", "frozen": False, "user_setattr": False},
      {"hooks": "none", "frozen": False, "user_setattr": True}],
     # slotted confused and what is defined below it
     [{"hooks": "some", "frozen": False, "user_setattr": False}, {"kind": "plain"},
